@@ -1348,7 +1348,7 @@ def register_builtins(L):
     @fn("np.append", "np.size", "np.issubdtype", "np.shape", "np.ndim", "np.array_equal", "np.allclose", "np.mean", "np.std",
         "np.var", "np.dot", "np.matmul", "np.exp", "np.log", "np.abs", "np.sqrt", "np.square", "np.nan_to_num", "np.tile",
         "np.isin", "np.argsort", "np.stack", "np.vstack", "np.hstack", "np.linalg.norm", "np.average", "np.cumsum", "np.diff",
-        "np.clip", "np.round", "np.floor", "np.ceil", "np.prod", "np.eye", "np.diag", "np.outer", "np.einsum", "np.take_along_axis",
+        "np.clip", "np.round", "np.floor", "np.ceil", "np.prod", "np.diag", "np.outer", "np.einsum", "np.take_along_axis",
         "np.argpartition", "np.delete", "np.meshgrid", "np.linspace", "np.isfinite", "np.isinf", "np.sign", "np.power")
     def _np_pure(E, st, args, kw, node):
         """numpy functions without a contract here: the result is unknown, the arguments are NOT modified (pure functions)"""
@@ -1357,6 +1357,15 @@ def register_builtins(L):
         st.events.append(("call", name, args, kw, r, {a.id: st.heap.get(a.id) for a in list(args) + list(kw.values()) if isinstance(a, Ref)}))
         E.abstracted.add(name + " (pure, result unknown)")
         return r
+
+    @fn("np.eye")
+    def _np_eye(E, st, args, kw, node):
+        """np.eye(n): the n x n real matrix with 1 on the diagonal and 0 elsewhere"""
+        if len(args) != 1 or kw or not is_int_like(args[0]):
+            return _np_pure(E, st, args, kw, node)
+        _used(E, "np.eye(n) (identity matrix)")
+        n = args[0] if isinstance(args[0], int) else to_int(args[0])
+        return st.alloc(ArrData((n, n), lambda i, j: z3.If(i == j, z3.RealVal(1), z3.RealVal(0)), "f"))
 
     @fn("np.union1d")
     def _np_union1d(E, st, args, kw, node):
@@ -1528,6 +1537,10 @@ def count_true(E, a, st):
         return c
     if getattr(a, "zero_one", False) or sc is not None:
         return z3.ToReal(c)
+    if a.kind == "i":           # integer array: an integer; equal to the count of non-zero entries when every entry is 0 or 1
+        sm = fresh("sum", I)
+        st.assume(z3.Implies(z3.ForAll(idx, z3.Implies(rng, z3.Or(to_int(a.sel(*idx)) == 0, to_int(a.sel(*idx)) == 1))), sm == c))
+        return sm
     return fresh("sum", R)      # sum of a general numeric array: no contract (unconstrained value)
 
 
